@@ -8,7 +8,9 @@ injections at every position/pair) are printed as ASN.1, compiled one by one
 with the asn1c built from the repository working tree (`asn1c -S <skeletons>
 m.asn1` in an empty directory), and the outcome (exit status, diagnostics,
 files written) is compared with the extracted model (faithfulness, including
-the class of every diagnostic) and with the extracted spec (oracle)."""
+the class of every diagnostic) and with the extracted spec (oracle).
+Further layers: lib/c11_tagmode.py (tagging mode along reference chains, emitted tags), lib/c11_status.py (faults next to a
+recorded WARNING status: coq/Fix/Status.v), lib/c11_param.py (parameterized types: coq/Fix/ParamDistinct.v)."""
 import sys, os, re, shutil, subprocess, json
 from concurrent.futures import ThreadPoolExecutor
 sys.path.insert(0, os.path.join(os.path.dirname(os.path.abspath(__file__)), "..", "lib"))
@@ -1079,9 +1081,11 @@ def main(tier):
                       extra_cov={"theorems": names,
                                  "rule": "fixed witnesses + spec-valid random bases (with COMPONENTS OF, large and extensible enumerations) + single-fault injections (collision kinds x every component pair x plain/auto/manual/run variants, duplicate identifier at every pair, duplicate enumeration name/value at every pair, dangling reference at every component/alias/element; COMPONENTS OF of six auxiliary earlier types x every SEQUENCE/SET site x every position x E/I/A x fault (inherited identifier, inherited tag, universal tag, automatic tagging over inherited tags, twice, additions not copied, nested extension, inside additions); enumerations over 15 value sets around 2^31/2^32/2^63/2^64/2^127 x valid/duplicate at every pair x root/after the marker), round-robin over the catalogue up to the tier's budget; one asn1c process per module",
                                  "tagging_mode_layer": "reference chains of 0..4 (random: ..6) definitions x terminal CHOICE/ANY/INTEGER/SEQUENCE x one tag at every hop in every mode, two tags at every pair of hops, random placements x use as SEQUENCE/SET/CHOICE component (root and additions), SEQUENCE OF/SET OF element, under [n] IMPLICIT/[n] EXPLICIT/[n]/nothing x EXPLICIT/IMPLICIT/AUTOMATIC TAGS; verdict per use and, for accepted modules, member tag/tag_mode and tags/all_tags vectors read from the generated .c files, against an independent X.680 computation and the extracted Fix/TagMode.v",
+                                 "status_layer": "faults and valid controls of the single-module corpus (round-robin over the fault families) x 16 environments that make asn1c record a warning status elsewhere (unknown encoding reference, same-named module with another OID, clash with a standard-module value; same module / second module before or after / second file before or after; controls without warning) x with and without -Werror; exit status, files written, FATAL lines against the property text and against the extracted status fold (coq/Fix/Status.v)",
+                                 "parameterized_layer": "template kind CHOICE/SET/SEQUENCE x shape (parameter first/last/nested/untagged/two parameters/OF element; template before or after its uses) x relation between the inline actual parameters of 2-3 specializations (equal, prefix, suffix, infix, permutation, differing only in tags/identifiers/types/flags/constraints, one level deeper, enumerations, primitive, named, nested instantiation) x order 12/21/121/212 x use at top level or as SEQUENCE member x E/I/A; verdict against the extracted spec on the module obtained by substituting every reference in Python; clone names P1_<line>P<k> in the generated headers against the number of different actual parameter lists and against the extracted specialization table (coq/Fix/ParamDistinct.v)",
                                  "traces_validated_against_impl": len(cases) + ntm + nst + npm},
                       assumptions=["model of libasn1fix is hand-written; tied by differential runs only on the generated modules",
-                                   "single-module specifications of the algebra in notes/design/C11.md; no constraints, parameterization, IMPORTS, ANY, SET OF; COMPONENTS OF only of earlier definitions; extensible ENUMERATED only fully valued",
+                                   "specifications of the algebra in notes/design/C11.md; no IMPORTS, no constraints except inside actual parameters, ANY and SET OF only in the tagging-mode layer; several modules / files only in the status layer; parameterized types: one template with type parameters, substitution done in Python; COMPONENTS OF only of earlier definitions; extensible ENUMERATED only fully valued",
                                    "diagnostic classes are recognised by message text"])
 
 
